@@ -332,7 +332,7 @@ CHECKS = {
         "references, and graphs with remote (http), dangling and local "
         "definitions for local and http roots. Every graph is written as "
         "real .rtdc files (store_basin(verify=False)), served by a loop-"
-        "back range-capable http server where needed, opened under a 30 s "
+        "back range-capable http server where needed, opened under a 120 s "
         "watchdog (termination), and every feature is probed with `in`, "
         "read and decoded."),
   note=("S3/DCOR formats cannot be emulated (the rule they share, "
